@@ -41,6 +41,11 @@ def run(ctx):
         totals["runs"] += v["runs"]
         totals["events"] += len(rows)
         for r in rows:
+            if r.get("ev") == "Decision":
+                totals["decisions"] = totals.get("decisions", 0) + 1
+                key = "round %d" % r["commitRound"]
+                totals.setdefault("decision_rounds", {})[key] = totals.setdefault("decision_rounds", {}).get(key, 0) + 1
+        for r in rows:
             if "post" in r and r.get("ev") != "Set":
                 totals["distinct"].add(hash(json.dumps([r["n"], r.get("m"), r.get("k"), r["post"], r["out"]], sort_keys=True)))
 
@@ -49,7 +54,7 @@ def run(ctx):
     # thorough: additionally rounds 0..2 exhaustive in TLC (4.3e5 states) with a sampled replay
     powers, byz = [2, 2, 1], ["v2"]
     mr = 1
-    info = cc.run_driver(ctx, binp, {"mode": "info", "powers": powers, "byz": byz, "maxround": 4}, "infoA")
+    info = cc.run_driver(ctx, binp, {"mode": "info", "powers": powers, "byz": byz, "maxround": 14}, "infoA")
     mc = cc.net_mc(ctx, "C01_small_run", info, byz, mr)
     rA = ctx.tlc(mc, mc + ".cfg", must_pass=True, timeout=1500, label="C01_small")
     totals["states"] += rA.distinct
@@ -84,10 +89,19 @@ def run(ctx):
         totals["transitions"] += rA2.generated
         cov["configs"].append({"config": "2+1 powers 2:2:1 rounds 0..2, TLC only", "exhaustive": not rA2.timed_out,
                                "tlc_states": rA2.distinct})
-    inp = {"mode": "replay", "powers": powers, "byz": byz, "maxround": 3, "scheds": scheds + sims,
-           "random": 60 if quick else 1500, "randlen": 120}
+    # graph paths as they are; simulated prefixes and random walks are completed by the synchronous-suffix
+    # executor so that every run ends in decisions reached from an adversarial prefix
+    inp = {"mode": "replay", "powers": powers, "byz": byz, "maxround": 12, "scheds": scheds, "random": 0}
     rows, stats = cc.run_driver(ctx, binp, inp, "A")
-    v = cc.validate(ctx, rows, info, byz, 3, "A", dedupe=True)
+    inp2 = {"mode": "replay", "powers": powers, "byz": byz, "maxround": 12, "scheds": sims, "synctail": True, "byzafter": True,
+            "random": 60 if quick else 1500, "randlen": 150}
+    rows2, stats2 = cc.run_driver(ctx, binp, inp2, "A2")
+    off = max([r["run"] for r in rows] + [0])
+    for r in rows2:
+        r["run"] += off
+    rows += rows2
+    stats = {k: stats[k] + stats2[k] for k in stats}
+    v = cc.validate(ctx, rows, info, byz, 12, "A", dedupe=True)
     account(v, rows, "2+1 powers 2:2:1")
     cov["configs"].append({"config": "2 correct + 1 Byzantine, powers 2:2:1, rounds 0..%d" % mr, "exhaustive": True,
                            "tlc_states": rA.distinct, "graph_nodes_replayed": graph_nodes, "schedules": len(scheds),
@@ -110,7 +124,7 @@ def run(ctx):
                                      ("eq3", [1, 1, 1, 1], 3, "3+1 equal powers, Byzantine never proposes"),
                                      ("w2", [2, 2, 1, 1], 2, "3+1 powers 2:2:1:1 (total divisible by 3)")):
         mr3 = 2
-        info3 = cc.run_driver(ctx, binp, {"mode": "info", "powers": powers, "byz": [], "maxround": mr3 + 1}, "info" + tag)
+        info3 = cc.run_driver(ctx, binp, {"mode": "info", "powers": powers, "byz": [], "maxround": 14}, "info" + tag)
         byz3 = [info3["names"][bi]]
         mcs = cc.net_mc(ctx, "C01_sim_" + tag, info3, byz3, mr3, lazy=False, view=False)
         nb = 60 if quick else 3000
@@ -125,10 +139,10 @@ def run(ctx):
         attacks = [a for a in load_attacks() if a["powers"] == powers and a["byz"] == byz3]
         for k, a in enumerate(attacks):
             scheds.append({"id": 100000 + k, "steps": a["steps"]})
-        inp = {"mode": "replay", "powers": powers, "byz": byz3, "maxround": mr3 + 1, "scheds": scheds,
-               "random": 40 if quick else 1500, "randlen": 150}
+        inp = {"mode": "replay", "powers": powers, "byz": byz3, "maxround": 12, "scheds": scheds, "synctail": True, "byzafter": True,
+               "random": 40 if quick else 1500, "randlen": 200}
         rows, stats = cc.run_driver(ctx, binp, inp, tag)
-        v = cc.validate(ctx, rows, info3, byz3, mr3 + 1, tag, dedupe=True)
+        v = cc.validate(ctx, rows, info3, byz3, 12, tag, dedupe=True)
         account(v, rows, label)
         cov["configs"].append({"config": label + ", rounds 0..%d" % mr3, "exhaustive": False,
                                "simulated_behaviours": len(scheds) - len(attacks), "attack_schedules": [a["name"] for a in attacks],
@@ -144,6 +158,7 @@ def run(ctx):
                 "weakened specs) and seeded random walks.",
         "samples": totals["samples"], "exhaustive": False,
         "exhaustive_note": "exhaustive and fully replayed for the 2+1 configuration only; 3+1 by simulation (see configs)",
+        "decisions_observed": totals.get("decisions", 0), "decision_commit_rounds": totals.get("decision_rounds", {}),
         "tlc_runs": ctx.tlc_stats, "nonvacuity": nonvac,
         "known_findings_reproduced": dict(verdict.known),
     }
